@@ -42,7 +42,7 @@ RULE_TEXT = {
 
 PROPS = {
     "C01": ["TS-1", "TS-2", "GATE-1", "GATE-4", "GATE-6", "GATE-7", "GATE-8", "GATE-10"],
-    "C02": ["TS-1", "TS-3", "TS-4", "GATE-1", "GATE-10", "EFF-2", "UNW-1", "PROV-1"],
+    "C02": ["TS-1", "TS-3", "TS-4", "GATE-1", "GATE-10", "EFF-2", "UNW-1", "PROV-1", "SYM-3"],
     "C03": ["GATE-5", "GATE-6", "GATE-8", "GATE-9", "GATE-10", "ITER-1", "EFF-4", "PROV-1", "TS-5", "SYM-3"],
     "C04": ["TS-3", "TS-4", "TS-5", "SYM-4"],
     "C05": ["TS-2", "TS-3", "TS-4", "TS-7", "TS-8", "GATE-5", "EFF-2", "API-1"],
